@@ -67,6 +67,12 @@ CHECKS["C13"] = ("model_checking",
     "Re-definitions are compiled with the module's import header (CPython emits different byte code for sys.audit depending on whether import sys is in the same compilation unit); clones/wrappers holding superseded code are not queried; locked clusters are exempt by the statement.",
     "DESIGN.md §3 C13")
 
+CHECKS["C04"] = ("model_checking",
+    "bounded-exhaustive enumeration of argument values x signatures x all presentations of a binding, executed on the real reference/hash code and a filesystem store; oracle = independent implementation of the documented hash + iff-relation over all value pairs",
+    "Every value of the argument alphabet (27 atoms incl. look-alikes across bool/int/float/str, -0.0, NaN, inf, non-ASCII, dates, naive/aware datetimes; lists and string-keyed dicts incl. both insertion orders and keys that need JSON escaping; function references with partial arguments) is bound on 1-parameter functions and in combinations on 2/3-parameter, defaulted, keyword-only and **kwargs signatures, and presented in every well-defined way (positional/keyword splits, keyword orders, one or two partial applications). All presentations must give one key equal to the documented SHA-256 of the canonical JSON, one body run, and the body must receive exactly the normalized values; all ordered value pairs must share a key iff their canonical encodings are equal; context-argument dictionaries likewise.",
+    "Positional arguments of a partial application placed after a keyword partial of an earlier parameter are not a well-defined presentation (the library lets the positional overwrite the keyword) and are not generated; var-positional / positional-only signatures are excluded by the statement.",
+    "DESIGN.md §3 C04")
+
 PENDING = {}
 
 
